@@ -32,7 +32,16 @@ h:
 """
 
 
+XLIB = "macros:\n- name: '@lib'\n  pattern:\n  - $and:\n    - '@inner'\n    - call\n"
+XLIB_RULES = {
+    "xlib_a": ("macros:\n- name: '@inner'\n  pattern:\n  - push\npattern:\n- '@lib'\n", [XLIB]),
+    "xlib_b": ("macros:\n- name: '@inner'\n  pattern:\n  - pop\npattern:\n- '@lib'\n", [XLIB]),
+}
+
+
 def rule_yaml(r):
+    if r["id"] in XLIB_RULES:
+        return XLIB_RULES[r["id"]]
     cfg = {}
     c = r["cfg"]
     if c["mfm"] != "-":
@@ -110,7 +119,7 @@ def run(prop, tier):
     for hk, ho in zip(hist_keys, obs):
         tr = []
         for (r, i), e in zip(hk, ho["events"]):
-            g = e.get("g") or {"mfm": False, "ofm": False, "style": "", "range": [], "sections": []}
+            g = e.get("g") or {"mfm": "None", "ofm": "None", "style": "None", "range": [], "sections": []}
             tr.append({"rule": r, "input": i, "outcome": e["outcome"], "g": g,
                        "res": json.dumps(digest(e), sort_keys=True),
                        "fresh": json.dumps(digest(fresh[(r, i)]), sort_keys=True)})
